@@ -160,9 +160,11 @@ class Run:
         return rec, out
 
     # ------------------------------------------------------------------ drivers
-    def drive(self, test, shards, env_fn, label, timeout=1800, binary=None, parallel=16):
+    def drive(self, test, shards, env_fn, label, timeout=1800, binary=None, parallel=16, crash_formula=None):
         """Run a harness driver as `shards` parallel processes. env_fn(i) -> extra env of shard i.
-        Returns the list of trace files (one per shard)."""
+        Returns the list of trace files (one per shard).
+        crash_formula: for properties that say "never crashes": a driver process that dies of a panic / runtime abort
+        raised INSIDE fan2go code (not by the harness) is an observation of the real code, reported under that formula."""
         binary = binary or self.bin
         t = time.time()
         outs = []
@@ -188,8 +190,16 @@ class Run:
             res = list(ex.map(one, range(shards)))
         for i, out, rc, logf in res:
             if rc != 0:
-                tail = open(logf).read()[-3000:]
-                log(tail)
+                text = open(logf).read()
+                crash = fan2go_crash(text) if (crash_formula and rc != -9) else None
+                if crash:
+                    n_lines = count_lines(out) if os.path.exists(out) else 0
+                    self.report_violation(crash_formula, out if n_lines else None, n_lines or None,
+                                          note='the process died inside fan2go code: ' + crash)
+                    if n_lines:
+                        outs.append(out)
+                    continue
+                log(text[-3000:])
                 raise Infra('driver %s shard %d exited %s (dead driver is not a verdict)' % (test, i, rc))
             outs.append(out)
         n = sum(count_lines(o) for o in outs)
@@ -432,6 +442,31 @@ def parse_coverage(out):
     for m in re.finditer(r'^<(\w+) line \d+, col \d+ to line \d+, col \d+ of module (\w+)>: (\d+):(\d+)', out, re.M):
         cov['%s!%s' % (m.group(2), m.group(1))] = int(m.group(4))
     return cov
+
+
+def fan2go_crash(text):
+    """If the output of a dead Go test process shows a panic or runtime abort whose panicking goroutine was executing
+    fan2go code (a frame of github.com/markusressel/fan2go/internal or .../cmd before any harness frame other than the
+    caller chain), return a one-line summary; None for harness panics and anything unclear."""
+    m = re.search(r'^(panic: .*|fatal error: .*)$', text, re.M)
+    if not m:
+        return None
+    rest = text[m.end():]
+    g = re.search(r'^goroutine \d+ .*?:\n(.*?)(?:\n\n|\Z)', rest, re.M | re.S)
+    if not g:
+        return None
+    frames = [ln.strip() for ln in g.group(1).splitlines() if ln and not ln.startswith('\t')]
+    for fr in frames:
+        if fr.startswith('panic(') or fr.startswith('runtime.') or fr.startswith('testing.') or fr.startswith('sync.') \
+                or fr.startswith('bytes.') or fr.startswith('io.') or fr.startswith('os/exec.') or fr.startswith('os.') \
+                or fr.startswith('strings.') or fr.startswith('internal/'):
+            continue
+        if 'markusressel/fan2go/verifharness' in fr:
+            return None          # the harness itself panicked (must(...)): not an observation of fan2go
+        if 'markusressel/fan2go/internal' in fr or 'markusressel/fan2go/cmd' in fr:
+            return (m.group(1) + ' in ' + fr.split('(')[0])[:300]
+        return None
+    return None
 
 
 def cfg(spec='Spec', constants=None, invariants=(), properties=(), view=None, constraint=None, post=None,
